@@ -80,6 +80,7 @@ type lifeRun struct {
 	scratch string
 	hs      map[string]*rosmar.Bucket
 	fd      map[string]*lifeFeed
+	used    map[string]bool // handles through which the behaviour has done something other than opening them
 	maxID   int
 }
 
@@ -391,7 +392,11 @@ func (lr *lifeRun) observe(line *LifeLine, prevN map[string]int, baseGor int) {
 	lr.settle()
 	line.Hs = map[string]HandleObs{}
 	for _, h := range lifeHandles {
-		if b := lr.hs[h]; b != nil {
+		if b := lr.hs[h]; b != nil && !lr.used[h] {
+			// a handle is looked through only once the behaviour itself has used it: looking caches the collections in
+			// the handle, and a handle that has never touched a collection is a state of its own
+			line.Hs[h] = HandleObs{Cls: "skip", C0: []int{}, C1: []int{}, C2: []int{}, C3: []int{}}
+		} else if b != nil {
 			line.Hs[h] = lr.probe(b)
 		} else {
 			line.Hs[h] = HandleObs{Cls: "none", C0: []int{}, C1: []int{}, C2: []int{}, C3: []int{}}
@@ -486,7 +491,7 @@ func cmdLife(args []string) error {
 	abandoned := 0
 	for bi := *from; bi < *to; bi++ {
 		lr := &lifeRun{tr: bi + 1, scratch: filepath.Join(*scratch, fmt.Sprintf("life_%d_%d", os.Getpid(), bi)),
-			hs: map[string]*rosmar.Bucket{}, fd: map[string]*lifeFeed{}}
+			hs: map[string]*rosmar.Bucket{}, fd: map[string]*lifeFeed{}, used: map[string]bool{}}
 		os.MkdirAll(lr.scratch, 0755)
 		if bi%2 == 1 {
 			// every other behaviour finds the bucket directories already there, empty: a directory is not a bucket
@@ -516,6 +521,9 @@ func cmdLife(args []string) error {
 			}
 			line := LifeLine{K: "act", Tr: bi + 1, I: i + 1, Act: a}
 			line.Res, line.Err = lr.exec(&a)
+			if a.Kind != "Open" && a.Kind != "StopFeed" {
+				lr.used[a.H] = true
+			}
 			lr.observe(&line, prevN, baseGor)
 			enc.Encode(line)
 			nlines++
